@@ -56,6 +56,9 @@ def struct(x):
         if name == 'Simulation':
             d = x.to_dict('all')
             d = {k: v for k, v in d.items() if k != 'tqdm_opts'}
+            # what the object itself holds, not only what it exports
+            d['_attr_tol_forward'] = x.tol_forward
+            d['_attr_tol_gradient'] = x.tol_gradient
         else:
             d = x.to_dict()
         d = {k: v for k, v in d.items() if k != '__class__'}
